@@ -539,7 +539,8 @@ structure Inv (st : RState) (rem : List Rec) : Prop where
 theorem readChunks_spec (names : List Bytes) (k : Nat) :
     ∀ (fuel : Nat) (st : RState) (rem : List Rec), Inv st rem → (∀ r ∈ rem, valid names.length r = true) →
       (∀ r ∈ rem, (encodeRec r).length ≤ k) → st.rest.length < fuel →
-      (readChunks false false names k fuel st).flatten = rem.map (view names) := by
+      ((readChunks false false names k fuel st).map (·.1)).flatten = rem.map (view names) ∧
+      ((readChunks false false names k fuel st).map (·.2)).flatten = encodeAll rem := by
   intro fuel
   induction fuel with
   | zero => intro st rem _ _ _ hf; omega
@@ -562,7 +563,7 @@ theorem readChunks_spec (names : List Bytes) (k : Nat) :
           simp only [List.length_take] at hgot
           have : st.rest.length = 0 := by omega
           omega
-      simp [hrem]
+      simp [hrem, encodeAll]
     · rw [if_neg hgot]
       simp only
       by_cases hfin : (st.rest.take k).length < k
@@ -589,7 +590,7 @@ theorem readChunks_spec (names : List Bytes) (k : Nat) :
           cases rem with
           | nil => exact absurd rfl hne
           | cons r rs => rfl
-        simp only [this, Bool.false_eq_true, if_false, List.flatten_cons]
+        simp only [this, Bool.false_eq_true, if_false, List.map_cons, List.flatten_cons]
         have hrest : List.drop k st.rest = [] := by
           apply List.drop_eq_nil_of_le
           simp only [List.length_take] at hfin; omega
@@ -645,9 +646,10 @@ theorem readChunks_spec (names : List Bytes) (k : Nat) :
           cases d with
           | nil => exact absurd rfl hdne
           | cons r rs => rfl
-        simp only [this, Bool.false_eq_true, if_false, List.flatten_cons]
+        simp only [this, Bool.false_eq_true, if_false, List.map_cons, List.flatten_cons]
         have hdrop : (encodeAll d ++ tail).drop (encodeAll d).length = tail := by simp
-        rw [hdrop]
+        have htake : (encodeAll d ++ tail).take (encodeAll d).length = encodeAll d := by simp
+        rw [hdrop, htake]
         have inv' : Inv { rest := st.rest.drop k, prepend := tail } t := by
           refine ⟨hrestdrop, ?_, ?_⟩
           · intro q qs ht
@@ -657,18 +659,31 @@ theorem readChunks_spec (names : List Bytes) (k : Nat) :
               rw [htail]; simp only [List.length_take]; omega
           · intro ht
             rw [htail, ht]; simp [encodeAll]
-        rw [ih _ t inv' hvt hkt (by simp only [List.length_drop]; omega)]
-        rw [hdt, List.map_append]
+        obtain ⟨ih1, ih2⟩ := ih _ t inv' hvt hkt (by simp only [List.length_drop]; omega)
+        rw [ih1, ih2, hdt, List.map_append, encodeAll_append]
+        exact ⟨rfl, rfl⟩
+
+theorem readAllChunks_spec (names : List Bytes) (recs : List Rec) (hv : ∀ r ∈ recs, valid names.length r = true)
+    (k : Nat) (hk : ∀ r ∈ recs, (encodeRec r).length ≤ k) :
+    ((readAllChunks false false names k (encodeAll recs)).map (·.1)).flatten = recs.map (view names) ∧
+    ((readAllChunks false false names k (encodeAll recs)).map (·.2)).flatten = encodeAll recs := by
+  unfold readAllChunks
+  apply readChunks_spec names k _ _ recs _ hv hk (by simp)
+  exact ⟨by simp, by intro r rs _; simp; have := encodeRec_pos r; omega, fun _ => rfl⟩
 
 /-- **C16 chunking clause**: for EVERY list of valid records and EVERY chunk size at least as
 large as the largest record, `read_chunks` delivers exactly the records of the whole file, in order. -/
 theorem chunked (names : List Bytes) (recs : List Rec) (hv : ∀ r ∈ recs, valid names.length r = true)
     (k : Nat) (hk : ∀ r ∈ recs, (encodeRec r).length ≤ k) :
-    (readAllChunks false false names k (encodeAll recs)).flatten = readWhole false false names (encodeAll recs) := by
+    ((readAllChunks false false names k (encodeAll recs)).map (·.1)).flatten = readWhole false false names (encodeAll recs) := by
   rw [decode_encode names recs hv]
-  unfold readAllChunks
-  apply readChunks_spec names k _ _ recs _ hv hk (by simp)
-  exact ⟨by simp, by intro r rs _; simp; have := encodeRec_pos r; omega, fun _ => rfl⟩
+  exact (readAllChunks_spec names recs hv k hk).1
+
+/-- the chunks' own bytes, joined, are the record area of the file: a chunk stream written back reproduces it -/
+theorem chunked_bytes (names : List Bytes) (recs : List Rec) (hv : ∀ r ∈ recs, valid names.length r = true)
+    (k : Nat) (hk : ∀ r ∈ recs, (encodeRec r).length ≤ k) :
+    ((readAllChunks false false names k (encodeAll recs)).map (·.2)).flatten = encodeAll recs :=
+  (readAllChunks_spec names recs hv k hk).2
 
 /-! ### unmapped records -/
 
@@ -778,7 +793,7 @@ example : ∀ r ∈ [exR1, exR2, exR3], valid exNames.length r = true := by deci
 example : (encodeRec exR1).length = 65 ∧ (encodeRec exR2).length = 41 ∧ (encodeRec exR3).length = 64 := by decide
 example : (readWhole false false exNames (encodeAll [exR1, exR2, exR3])).map (·.chrom) = [[99, 104, 114, 49], star, [99, 104, 114, 88]] := by
   decide +kernel
-example : (readAllChunks false false exNames 65 (encodeAll [exR1, exR2, exR3])).map List.length = [1, 1, 1] := by decide +kernel
+example : (readAllChunks false false exNames 65 (encodeAll [exR1, exR2, exR3])).map (·.1.length) = [1, 1, 1] := by decide +kernel
 example : (recs : List Rec) → recs = [exR1, exR2, exR3] → ∀ i ∈ [2, 0, 0], i < recs.length := by
   intro recs h; subst h; decide
 example : (intervalOf Gen.C16.consumes (view exNames exR3)).stop = 113 ∧ (intervalOf Gen.C16.consumes (view exNames exR3)).minus = true := by
@@ -788,6 +803,6 @@ example : star ∉ exNames := by decide
 /-- the chunk-size bound of the property is needed: with a chunk size below the largest record the
 reader (as modelled, and as the code behaves) delivers nothing -/
 theorem chunk_bound_needed :
-    (readAllChunks false false exNames 64 (encodeAll [exR1, exR2, exR3])).flatten = [] := by decide +kernel
+    ((readAllChunks false false exNames 64 (encodeAll [exR1, exR2, exR3])).map (·.1)).flatten = [] := by decide +kernel
 
 end C16
